@@ -91,6 +91,8 @@ def _gen_scenario(seed: int, run: int, tier: str, rng: Any) -> dict:
         kinds.append(common.weighted(rng, CLIENT_KINDS))
     names = ["k%d" % i for i in range(len(kinds))]
     clients: dict[str, dict] = {n: {"kind": k, "ops": []} for n, k in zip(names, kinds)}
+    if rng.random() < 0.15:
+        return _gen_heartbeat_scenario(seed, run, rng, kinds)
     if rng.random() < 0.3:
         # delete-and-recreate: a study is deleted by one client, the readers are told so
         # (KeyError), then its id is re-used by a new study (SQLite re-uses ids)
@@ -114,6 +116,9 @@ def _gen_scenario(seed: int, run: int, tier: str, rng: Any) -> dict:
         for c in readers0:
             if rng.random() < 0.7:
                 add0(c, 5, {"op": "read_check", "study": "S0", "filters": [0], "full": False})
+            elif c != w:
+                # the client tries to delete the study itself and is told that it is gone
+                add0(c, 5, {"op": "delete_study", "study": "S0"})
         add0(rng.choice(names), 6, {"op": "create_new_study", "directions": ["MAXIMIZE"], "name": "new", "as": "S1"})
         for i in range(rng.randint(1, 3)):
             add0(rng.choice(names), 7, {"op": "create_new_trial", "study": "S1", "as": "N%d" % i})
@@ -206,6 +211,61 @@ def _gen_scenario(seed: int, run: int, tier: str, rng: Any) -> dict:
         c_["ops"].sort(key=lambda o: o.get("phase", 0))
     cfg = {"mode": "clients", "deployment": "mixed", "scenario": True, "p_line": 0.0, "p_seam": rng.choice([0.2, 0.5, 0.8]), "pool": rng.choice([1, 2, 3]), "busy_timeout": 60.0}
     return {"check": ID, "seed": seed, "run": run, "cfg": cfg, "clients": clients, "faults": faults, "sched": {"seed": rng.getrandbits(48)}}
+
+
+def _gen_heartbeat_scenario(seed: int, run: int, rng: Any, kinds: list[str]) -> dict:
+    """Stale-trial recovery through a caching client: trials that are themselves retries
+    (they carry a retry history) lose their workers; a caching client with heartbeats enabled
+    sweeps them, its failure callback looks at the study and enqueues the retries; afterwards
+    every client's view must still equal the database."""
+    kinds = ["cached"] + [k if k in ("cached", "raw") else rng.choice(["cached", "raw", k]) for k in kinds[1:]]
+    names = ["k%d" % i for i in range(len(kinds))]
+    clients: dict[str, dict] = {n: {"kind": k, "ops": []} for n, k in zip(names, kinds)}
+    hb = rng.choice([1, 2])
+    grace = rng.choice([None, 2 * hb + 1, 4 * hb])
+
+    def add(c: str, phase: int, op: dict) -> None:
+        op = dict(op)
+        op["phase"] = phase
+        clients[c]["ops"].append(op)
+
+    g = gen.OpGen(rng, client="", deletes=False, getters=False, unknown_ids=False, max_studies=1, max_trials=8, multi_objective=False)
+    add(rng.choice(names), 0, {"op": "create_new_study", "directions": ["MINIMIZE"], "name": "hb", "as": "S0"})
+    local = [n for n in names if clients[n]["kind"] in ("cached", "raw")]  # heartbeats need the RDB API
+    ntr = rng.randint(2, 4)
+    beating = []
+    for i in range(ntr):
+        h = "T%d" % i
+        op: dict = {"op": "create_new_trial", "study": "S0", "as": h}
+        if i > 0 and rng.random() < 0.8:
+            t = g.template(1)
+            hist = list(range(i)) if rng.random() < 0.5 else [0]
+            t.update({"state": "RUNNING", "values": None, "has_complete": False, "dt_complete": None, "has_start": True, "dt_start": "2024-02-03T04:05:06.%06d" % (1000 + i)})
+            t["system_attrs"] = {"failed_trial": hist[0], "retry_history": hist}
+            op["template"] = t
+        add(rng.choice(names), 1, op)
+        if rng.random() < 0.85:
+            add(rng.choice(local), 2, {"op": "heartbeat", "trial": h})
+            beating.append(h)
+    readers = [n for n in names if clients[n]["kind"] != "raw"]
+    for c in readers:
+        if rng.random() < 0.6:
+            add(c, 3, {"op": "read_check", "study": "S0", "filters": [0, 1], "full": rng.random() < 0.5})
+    if beating and rng.random() < 0.4:
+        # one of the workers is alive after all / finishes in time
+        add(rng.choice(names), 3, {"op": "set_trial_state_values", "trial": rng.choice(beating), "state": "COMPLETE", "values": [cf(g.objective_value())]})
+    sweeper = "k0"
+    eff = grace if grace is not None else 2 * hb
+    add(sweeper, 4, {"op": "sleep", "secs": eff + rng.choice([1, 5, 100])})
+    add(sweeper, 5, {"op": "sweep", "study": "S0"})
+    if len(local) > 1 and rng.random() < 0.4:
+        add(rng.choice(local[1:]), 5, {"op": "sweep", "study": "S0"})
+    for c in readers:
+        add(c, 6, {"op": "read_check", "study": "S0", "filters": [0, 2], "full": True})
+    for c_ in clients.values():
+        c_["ops"].sort(key=lambda o: o.get("phase", 0))
+    cfg = {"mode": "clients", "deployment": "mixed", "scenario": "heartbeat-retry", "hb": {"interval": hb, "grace": grace, "max_retry": rng.choice([None, 1, 3]), "callback_reads": rng.random() < 0.7}, "p_line": 0.0, "p_seam": rng.choice([0.2, 0.5, 0.8]), "pool": rng.choice([1, 2, 3]), "busy_timeout": 60.0}
+    return {"check": ID, "seed": seed, "run": run, "cfg": cfg, "clients": clients, "faults": [], "sched": {"seed": rng.getrandbits(48)}}
 
 
 def _gen_threads(seed: int, run: int, tier: str, rng: Any) -> dict:
@@ -351,12 +411,26 @@ def _run_clients(plan: dict, sim: sched.Sim, ch: sched.Chooser, dep: deploy.Depl
                 return True
         return False
 
+    hbkw: dict[str, Any] = {}
+    if cfg.get("hb"):
+        from optuna.storages import RetryFailedTrialCallback
+
+        retry = RetryFailedTrialCallback(max_retry=cfg["hb"].get("max_retry"))
+
+        def failed_trial_callback(study_: Any, trial_: Any) -> None:
+            # what a user's callback may well do before handing over to the stock retry
+            if cfg["hb"].get("callback_reads"):
+                study_.get_trials(deepcopy=False)
+            retry(study_, trial_)
+            sim.count("failed_trial_callback")
+
+        hbkw = {"heartbeat_interval": cfg["hb"]["interval"], "grace_period": cfg["hb"].get("grace"), "failed_trial_callback": failed_trial_callback}
     for n in sorted(plan["clients"]):
         k = kinds[n]
         if k == "cached":
-            storages[n] = _CachedStorage(dep.db.new_storage(procs[n], cfg))
+            storages[n] = _CachedStorage(dep.db.new_storage(procs[n], cfg, **hbkw))
         elif k == "raw":
-            storages[n] = dep.db.new_storage(procs[n], cfg)
+            storages[n] = dep.db.new_storage(procs[n], cfg, **hbkw)
         else:
             srv = net.SimServer(sim, _Inner(dep, k == "grpc-cached"), cfg)
             srv.fault = fault
@@ -364,6 +438,7 @@ def _run_clients(plan: dict, sim: sched.Sim, ch: sched.Chooser, dep: deploy.Depl
             storages[n] = srv.new_client(procs[n])
     verdict: list[tuple[str, str]] = []
     observed_gone: set = set()  # (client, study id) for which the client itself got KeyError
+    own_delete_failed: set = set()  # (client, study id): its own delete_study raised KeyError
     cur_phase: dict[str, int] = {}
     # phase barriers of scenario plans: an op of phase p starts when all ops of phases < p are done
     phase_total: dict[int, int] = {}
@@ -419,6 +494,10 @@ def _run_clients(plan: dict, sim: sched.Sim, ch: sched.Chooser, dep: deploy.Depl
             # study id was gone: its own cache entry must have been dropped then - staleness
             # now is not the documented "no invalidation on foreign delete"
             tag = "stale-after-observed-delete"
+        if foreign_delete and kinds[name] == "cached" and (name, sid) in own_delete_failed:
+            # _CachedStorage.delete_study drops the client's cache entry before it asks the
+            # backend: after its own (failed) attempt nothing of the old study may be left
+            tag = "stale-after-own-delete-attempt"
 
         def bad(what: str, detail: str) -> None:
             if not verdict:
@@ -530,6 +609,33 @@ def _run_clients(plan: dict, sim: sched.Sim, ch: sched.Chooser, dep: deploy.Depl
                         read_trial(name, st, op)
                         sim.note("read_trial", name, op["trial"])
                         return
+                    if op["op"] == "heartbeat":
+                        tid = env.real.get(op["trial"])
+                        if tid is not None and hasattr(st, "record_heartbeat"):
+                            st.record_heartbeat(tid)
+                            sim.count("heartbeat_recorded")
+                        trace.append("%s(%s) record_heartbeat %s" % (name, kinds[name], op["trial"]))
+                        sim.note("heartbeat", name, op["trial"])
+                        return
+                    if op["op"] == "sleep":
+                        if hasattr(st, "remove_session"):
+                            st.remove_session()
+                        sim.sleep(float(op["secs"]))
+                        return
+                    if op["op"] == "sweep":
+                        import optuna
+
+                        sid = env.real.get(op["study"])
+                        if sid is None or not hasattr(st, "record_heartbeat"):
+                            return
+                        study_ = optuna.load_study(study_name=st.get_study_name_from_id(sid), storage=st)
+                        optuna.storages.fail_stale_trials(study_)
+                        sim.count("sweeps")
+                        for other in writes_since_read:
+                            writes_since_read[other].add(name)
+                        trace.append("%s(%s) fail_stale_trials" % (name, kinds[name]))
+                        sim.note("sweep", name)
+                        return
                     res = ops.apply_real(st, op, env)
                     if res[0] == "skip":
                         return
@@ -537,6 +643,9 @@ def _run_clients(plan: dict, sim: sched.Sim, ch: sched.Chooser, dep: deploy.Depl
                         env.real[op["as"]] = res[1][1]
                     if res[0] == "ok" and op["op"] == "delete_study":
                         deleted_by[op["study"]] = name
+                    if res[0] == "err" and res[1] == "KeyError" and op["op"] == "delete_study" and env.real.get(op["study"]) is not None:
+                        own_delete_failed.add((name, env.real[op["study"]]))
+                        sim.count("own_delete_of_deleted_study")
                     if not op["op"].startswith("get_"):
                         for other in writes_since_read:
                             writes_since_read[other].add(name)
